@@ -46,7 +46,8 @@ GENERAL_SCALARS = [0.1, -0.3, 1.0 / 3, 2.5, -1.7, 0.7]
 
 def EXPECTED_BRANCHES(ctx=None):
     return (fc.history_expected_branches() + fc.wide_expected_branches('C09') +
-            fc.forms_expected_branches())
+            fc.forms_expected_branches() +
+            ['lipschitz/nested/{}/{}'.format(k, f) for k in NESTED_KINDS for f, _ in NESTED_FACTORS])
 
 # --------------------------------------------------------------------------
 # recipe generator (functionals WITH a gradient)
@@ -200,6 +201,29 @@ def corner_recipes(rng, S):
         ['sum', ['l2sq'], ['trans', fc.rvec(rng, n), ['indzero', 0.0]]],
         ['lscal', 2.0, ['rscal', 0.5, ['indlinf']]],
     ]
+
+
+NESTED_KINDS = ('lscal-lscal', 'rscal-rscal', 'lscal-rscal', 'rscal-lscal', 'diff')
+NESTED_FACTORS = (('inner-lt-1', 0.5), ('inner-gt-1', 2.0))
+
+
+def nested_lipschitz_recipes(S):
+    """Deterministic: nested scalar multiples (the constructors MERGE nested scalings, so the
+    propagated grad_lipschitz must use the product of the factors) and differences f - s*g, inner
+    factor below and above 1, on leaves with a finite constant. In EVERY run, every space."""
+    leaves = [['l2sq']] + ([['huber', 0.5]] if not S.is_pspace else [])
+    out = []
+    for leaf in leaves:
+        for fname, s1 in NESTED_FACTORS:
+            out += [
+                ('lscal-lscal/' + fname, ['lscal', 3.0, ['lscal', s1, leaf]]),
+                ('rscal-rscal/' + fname, ['rscal', 3.0, ['rscal', s1, leaf]]),
+                ('lscal-rscal/' + fname, ['lscal', 3.0, ['rscal', s1, leaf]]),
+                ('rscal-lscal/' + fname, ['rscal', 3.0, ['lscal', s1, leaf]]),
+                ('diff/' + fname, ['diff', ['l2sq'], ['lscal', s1, leaf]]),
+                ('lscal-lscal/' + fname, ['lscal', -2.0, ['lscal', s1, ['rscal', -1.5, ['rscal', s1, leaf]]]]),
+            ]
+    return out
 
 
 def known_tag(r):
@@ -593,6 +617,9 @@ def run(ctx, deep=False):
             check_tree(ctx, r, S, 'general', True, lines, pend, n_pts=2 if quick else 4)
         for r in corner_recipes(rng, S):
             check_tree(ctx, r, S, 'exact', True, lines, pend, n_pts=2)
+        for stratum, r in nested_lipschitz_recipes(S):
+            ctx.hit('lipschitz/nested/' + stratum)
+            check_tree(ctx, r, S, 'exact', True, lines, pend, n_pts=1)
         for i in range(n_trees):
             exact = rng.random() < 0.6
             depth = rng.randint(1, max_depth)
